@@ -247,7 +247,7 @@ where
         let env = environment::Environment::<A, NonRestartable>::from_channel(channel)
             .with_config(config);
         let (event_loop, addr) = env.create_loop_on_stream(actor, stream);
-        let _handle = P::spawn_actor(event_loop);
+        P::spawn_actor(event_loop).detach();
         addr
     }
 
